@@ -28,7 +28,7 @@ from lib import common as C
 
 ID = "C17"
 PROP_MODULES = ["GPVerif.Props.C17"]
-BUILD_TARGETS = ["GPVerif.Props.C17", "GPVerif.Gen.Constraints", "GPVerif.Model.ParamStore", "GPVerif.Model.Priors"]
+BUILD_TARGETS = ["GPVerif.Props.C17", "GPVerif.Gen.Constraints", "GPVerif.Gen.Priors", "GPVerif.Model.ParamStore", "GPVerif.Model.Priors"]
 RULE = ("(a) transform sweeps: 4 constraint classes x scalar/tensor bounds x {special values over the whole finite float "
         "range, random}; distinct = (class, bounds, x-bucket); (b) every constructible class of kernels/likelihoods/means "
         "__all__ x every constrained parameter x {default, 4 replaced constraints}: setter/oob/history; distinct = "
@@ -55,6 +55,8 @@ def generate(ctx):
     from translate import g5_constraints
     tr, changed = g5_constraints.generate(C.REPO, GEN)
     _state["tr"] = tr
+    from translate import g6_priors
+    changed = g6_priors.generate(C.REPO, os.path.join(C.LEAN_DIR, "GPVerif", "Gen", "Priors.lean")) or changed
     ctx.notes["gen_changed"] = changed
     ctx.notes["standard_setters"] = len(tr.std_setters)
     ctx.notes["nonstandard_setters"] = [list(x) for x in tr.nonstd_setters]
